@@ -8,6 +8,7 @@ import ThriftVerif.Generated.C11Schema
 
   mar <sidx> <hexbytes> <VL value>   model `write` vs the implementation's Marshal bytes (up to map order)
   unm <sidx> <hexbytes>              model `read` on the implementation's bytes, printed canonically
+  unm <sidx> = <tag>                 the same on the bytes of the preceding `mar` line
   cmp <tree>                         compress, then decompress on the plugin side
   unc <hexbytes>                     UnmarshalRequest: model `read`, then (trailer present) decompress of the AST
   apt <hexdata> <feature>            appendDataTrailer, hasDataTrailerFeature on the result
@@ -204,12 +205,14 @@ def doExe (toks : List String) : String :=
     | _, _, _ => "bad-op"
   | _ => "bad-op"
 
-def handleLine (line : String) : String :=
+/-- state: the bytes of the last `mar` line (`unm <sidx> = <tag>` decodes those) -/
+def handleLine (last : Bytes) (line : String) : Bytes × String :=
+  (fun (r : String) => (last, r)) <|
   match VL.toks line with
-  | "mar" :: sidx :: hex :: rest =>
-    match sidx.toNat?, VL.hexDecode hex, parseVal rest with
-    | some i, some bs, some (v, []) => doMar i bs v
-    | _, _, _ => "bad-op"
+  | ["unm", sidx, "=", _] =>
+    match sidx.toNat? with
+    | some i => doUnm i last
+    | none => "bad-op"
   | ["unm", sidx, hex] =>
     match sidx.toNat?, VL.hexDecode hex with
     | some i, some bs => doUnm i bs
@@ -243,6 +246,14 @@ def handleLine (line : String) : String :=
   | "exe" :: rest => doExe rest
   | _ => "bad-op"
 
+def step (last : Bytes) (line : String) : Bytes × String :=
+  match VL.toks line with
+  | "mar" :: sidx :: hex :: rest =>
+    match sidx.toNat?, VL.hexDecode hex, parseVal rest with
+    | some i, some bs, some (v, []) => (bs, doMar i bs v)
+    | _, _, _ => (last, "bad-op")
+  | _ => handleLine last line
+
 end Driver.C11
 
-def main : IO Unit := Driver.lineLoop Driver.C11.handleLine
+def main : IO Unit := Driver.stateLoop ([] : Bytes) Driver.C11.step
